@@ -16,6 +16,7 @@ import concurrent.futures as cf
 import difflib
 import json
 import os
+import time
 from pathlib import Path
 
 from harness import c03_ref as ref
@@ -485,7 +486,9 @@ def run(ctx: core.Ctx):
     items = [{"ta": c["ta"], "tb": c["tb"], "desc": "corpus:" + c["_file"]} for c in corpus if c.get("kind") == "pure"]
     items += [gen_pure(rng) for _ in range(n_pure)]
     items += [gen_pure(rng, exotic=True) for _ in range(n_exotic)]
+    t0 = time.time()
     run_pure(ctx, items)
+    ctx.notes.append(f"pure phase: {len(items)} cases in {round(time.time() - t0, 1)}s")
 
     # ---- (2) end-to-end
     projects = []
@@ -496,6 +499,7 @@ def run(ctx: core.Ctx):
         files, seq, desc = gen_project(rng, known_ok=(i % 6 == 5))
         projects.append((files, seq, desc))
     results = [None] * len(projects)
+    t0 = time.time()
 
     def one(i):
         files, seq, desc = projects[i]
@@ -503,6 +507,7 @@ def run(ctx: core.Ctx):
     with cf.ThreadPoolExecutor(max_workers=min(12, core.NCPU)) as ex:
         for i, res in ex.map(one, range(len(projects))):
             results[i] = res
+    ctx.notes.append(f"cli phase: {len(projects)} runs in {round(time.time() - t0, 1)}s")
     e2e_pairs = []
     for (files, seq, desc), res in zip(projects, results):
         ctx.cli_runs += 1
